@@ -478,7 +478,8 @@ class Ops:
     def test_key(self, val, cmps, test_expr):
         """(key, negated) identifying the symbolic question asked by a test, or None."""
         sc = [c for c in cmps if c["kind"] == "size_compare"]
-        if len(sc) == 1 and len(cmps) == 1 and not isinstance(test_expr, (ast.BoolOp,)):
+        others = [c for c in cmps if c["kind"] != "size_compare"]
+        if len(sc) == 1 and all(c["kind"] == "cmp" for c in others) and len(others) <= 1 and not isinstance(test_expr, (ast.BoolOp,)):
             neg = isinstance(test_expr, ast.UnaryOp) and isinstance(test_expr.op, ast.Not)
             op = sc[0]["op"]
             canon = {"NotEq": ("Eq", True), "GtE": ("Lt", True), "LtE": ("Gt", True)}.get(op, (op, False))
